@@ -17,6 +17,8 @@ def run_script(case):
             if step[0] == "cmd":
                 r = e.rows(step[1])
                 out.append({"status": r["status"], "rows": r["rows"], "message": r.get("message"), "error": r.get("error")})
+            elif step[0] == "raw":
+                e.cmd(step[1]); out.append(None)
             elif step[0] == "quiesce":
                 e.cmd("!flushwait"); e.cmd("!wal_drained 3000"); out.append(None)
             elif step[0] == "restart":
